@@ -2,6 +2,7 @@
 them against tables/discharge.jsonl (exact keys only)."""
 import json
 import os
+import re
 from .rt import INFINITE_ITERS, RtAnalysis
 from .core import VERIF
 
@@ -394,7 +395,51 @@ def chk_effects_initialised(F):
     return bool(R2.items), '%d creation sites initialise their effects' % len(R2.items)
 
 
+def chk_easing_argument_unit(F):
+    """`Easing::apply(x)` raises x to a (possibly fractional) power: x must not be negative.  Its callers outside the
+    easing code are the three confirmed by reading; each is recognised by the shape that keeps its argument in [0, 1]:
+      Mapping::map      the amount is `clamp(.., 0.0, 1.0)`                              (B.C17.map states the same)
+      Tween::value      time / duration, called only under `time < duration` (tween_value_guarded), time >= 0
+      spatial tracks    1 - relative_distance with relative_distance in [0, 1]           (distance_range, run by C01 / C15)
+    A caller that is none of these is reported: nothing establishes its argument's sign."""
+    from .facts import callee_path
+    from .paths import describe
+    n = 0
+    seen = set()
+    for b in F.bodies:
+        if b.krate != 'kira':
+            continue
+        for bb, t in b.calls():
+            if (callee_path(t) or '') != 'tween::Easing::apply':
+                continue
+            root = b.path.split('::{closure')[0]
+            if root.startswith('tween::Easing::') or (root.startswith('tween::') and root.count('::') == 1 and root != 'tween::Tween'):
+                continue          # the easing code's own recursion / private helpers in tween.rs: 1 - x, 2x (< 1), 2 - x
+            n += 1
+            d = describe(b, t['args'][1], depth=12, at=bb)
+            if root.startswith('value::Mapping'):
+                if not re.search(r'clamp\(.*, ?0\.0, ?1\.0\)', d):
+                    return False, '%s hands Easing::apply %s: not the amount clamped to 0.0..1.0' % (b.path, d[:120])
+                seen.add('map')
+            elif root.startswith('tween::Tween::'):
+                if not d.startswith('Div('):
+                    return False, '%s hands Easing::apply %s: not time / duration' % (b.path, d[:120])
+                seen.add('tween')
+            elif root.startswith('track::sub::'):
+                if not re.match(r'(<[^>]*>::into|[\w:]*from|[\w:<>, ]*::into)?\(?Sub\(1\.0, ?', d) and 'Sub(1.0' not in d[:60]:
+                    return False, '%s hands Easing::apply %s: not 1 - relative_distance' % (b.path, d[:120])
+                seen.add('spatial')
+            else:
+                return False, ('%s calls Easing::apply: a caller that is not one of the three whose argument is known to lie in '
+                               '0..1 (argument %s)' % (b.path, d[:120]))
+    good, msg = chk_tween_value_guarded(F)
+    if not good:
+        return False, msg
+    return seen == {'map', 'tween', 'spatial'}, '%d outside callers of Easing::apply (%s), each with its argument in 0..1' % (n, ', '.join(sorted(seen)))
+
+
 CHECKS = {
+    'easing_argument_unit': chk_easing_argument_unit,
     'scratch_sized_ibs': chk_scratch_sized_ibs,
     'delay_line_nonempty': chk_delay_line_nonempty,
     'reverb_filters_nonempty': chk_reverb_filters_nonempty,
